@@ -5,9 +5,10 @@ _commit that records - when it is entered - the physical tree P, the answers of 
 SimpleOperationExecutor.is_file / is_dir, asked for every path of P and every recorded path; the bookkeeping of
 BuildDirs is put back afterwards, the queries memoise), the old outputs, the old created directories and the
 error-created directories, and the tree when it returns.  FB.Commit.commit on the recorded state must give the recorded
-result.  The hypotheses of the theorem commit_exact (the physical tree is the virtual tree plus stale outputs plus
-directories only the disk knows) are evaluated on every recorded state, and where they hold the conclusion is judged
-on the real tree: after _commit it is the virtual tree, the cache file aside.
+result.  The hypotheses of the theorems commit_exact / commit_exact_general (the physical tree is the virtual tree plus
+stale outputs plus directories only the disk knows; for the former also: the cache file's directory is virtually there)
+are evaluated on every recorded state, and where they hold the conclusion is judged on the real tree: after _commit it
+is the virtual tree, the cache file aside (and, under the general theorem only, its directory and ancestors aside).
 
 (2) On random trees with random (also contradictory) answers of the virtual tree, the real method on a stand-in
 object: result equal to the model's, and - judged on the real side - nothing but old outputs unknown to the virtual
@@ -128,7 +129,7 @@ def run_histories(tier, rep, ds, salt=0):
     outs = model.run_cases([{k: v for k, v in c.items() if k != 'after'} for c in caps]) if caps else []
     for c, mo in zip(caps, outs):
         why = hypotheses(c)
-        rep.count('commits_within_commit_exact' if why is None else 'commits_outside_hypothesis:' + why)
+        rep.count('commits_within_commit_exact' if why is None else 'commits_within_commit_exact_general_only' if why == 'hcf' else 'commits_outside_hypothesis:' + why)
         before = {x[0]: x for x in c['tree']}
         got = {x[0]: x for x in c['after']}
         removed = [k for k in before if k not in got]
@@ -136,9 +137,11 @@ def run_histories(tier, rep, ds, salt=0):
             rep.count('commits_removing_stale_outputs')
         if any(before[k][1] == 'dir' for k in removed):
             rep.count('commits_removing_directories')
-        if why is None:
+        if why in (None, 'hcf'):
+            # outside `hcf` the theorem is commit_exact_general: the cache file's directory and its ancestors may stay
             vf, vd = set(c['virtFiles']), set(c['virtDirs'])
-            bad = [k for k in set(got) | vf | vd if k != c['cf'] and
+            cfp = c['cf']
+            bad = [k for k in set(got) | vf | vd if k != cfp and (why is None or k in vf or k in vd or not cfp.startswith(k + '/')) and
                    ((got.get(k) or [None, None])[1] != ('file' if k in vf else 'dir' if k in vd else None))]
             if bad:
                 problems.append({'what': 'after _commit the tree on disk is not the virtual tree', 'oracle': True, 'differ_at': sorted(bad)[:6],
